@@ -214,8 +214,14 @@ func (s *Sim) rec(id int) *CallRec {
 	return s.Calls[id]
 }
 
+// Stream messages carry (call, direction, sequence) tags; MsgLen == -1 asks
+// for empty messages (they encode to zero bytes on the wire), which carry no
+// tag but are still compared by count and position.
 func (s *Sim) cmsg(spec *CallSpec, i int) []byte {
 	n := spec.MsgLen
+	if n < 0 {
+		return []byte{}
+	}
 	if n < 10 {
 		n = 10
 	}
@@ -223,6 +229,9 @@ func (s *Sim) cmsg(spec *CallSpec, i int) []byte {
 }
 func (s *Sim) hmsg(spec *CallSpec, i int) []byte {
 	n := spec.MsgLen
+	if n < 0 {
+		return []byte{}
+	}
 	if n < 10 {
 		n = 10
 	}
